@@ -17,7 +17,8 @@ META = {
                   '-1 comes after at most len/2 byte results and is sticky, in both calling styles (NULL continuation and the hextest.c style); (accepted_syntax) pairs with optional 0x, either case, arbitrary blanks '
                   'and an address: prefix on every line (more generally: never an address after a line without one) parse to exactly the pairs, the final newline being optional. '
                   'Sampled, not proved: that the C code behaves as the model (correspondence run on every check: dumps of lengths around every multiple of 16 with all byte values, syntax-directed texts, '
-                  'random strings and near misses, every string over a 7-8 letter alphabet up to length 5 (quick) / 7 (thorough), exactly-sized heap copies under ASan; '
+                  'random strings and near misses, every string over a 7-8 letter alphabet up to length 5 (quick) / 7 (thorough), exactly-sized heap copies under ASan, and histories of 2-4 texts placed right-aligned one after the other in one persistent 4096-byte block '
+                  '(refilled buffer / recycled chunk: the model is stateless, so state hidden in hex.c between calls is a concrete violation whose replay is the short history); '
                   'libc isspace/isxdigit and hex.c nibble/hexchar tables compared for all 256 chars).',
     'level_note': 'Trusted: Lean kernel (standard axioms only); hand model of hex.c validated each run against the real code compiled from the tree (harness includes hex.c); libc strchr/isspace/isxdigit/fprintf '
                   'are modelled by explicit definitions (isspace/isxdigit compared with libc for all 256 values, C locale); char is signed (x86-64 gcc); the int return value of hex_dump_to_file is '
@@ -113,11 +114,17 @@ def spec_tables(lines):
 class Op:
     """kind: tables | dump | parse | reparse;  data: bytes;  expect: byte values the property fixes (or None);
     struct: accepted-syntax structure the text was rendered from (for structural shrinking)"""
-    def __init__(self, kind, data=b'', expect=None, struct=None, cls=''):
+    def __init__(self, kind, data=b'', expect=None, struct=None, cls='', blk=False, hist=None):
         self.kind, self.data, self.expect, self.struct, self.cls = kind, bytes(data), expect, struct, cls
+        # blk: the text (and the array of a dump) is placed right-aligned in the harness's persistent 4096-byte block
+        # instead of a fresh exactly-sized block; hist: id of the history (texts parsed one after the other in that block)
+        self.blk, self.hist = blk and kind != 'tables', hist
 
     def line(self):
-        return 'tables' if self.kind == 'tables' else f'{self.kind} {enc(self.data)}'
+        return 'tables' if self.kind == 'tables' else f'{"b" if self.blk else ""}{self.kind} {enc(self.data)}'
+
+    def clone(self, data=None, expect=None, struct=None):
+        return Op(self.kind, self.data if data is None else data, expect, struct, self.cls, self.blk, self.hist)
 
     def spec(self, out):
         """None, or why the implementation's output contradicts the property"""
@@ -156,8 +163,8 @@ def expected(st):
     return [int(chr(hi) + chr(lo), 16) for (_, items, _) in st[1] for (_, _, hi, lo) in items]
 
 
-def syntax_op(st, kind='parse'):
-    return Op(kind, render(st), expected(st), st, 'syntax')
+def syntax_op(st, kind='parse', blk=False, hist=None, cls='syntax'):
+    return Op(kind, render(st), expected(st), st, cls, blk, hist)
 
 
 def gen_blanks(rng, lo=0):
@@ -250,6 +257,68 @@ def gen_dump_arrays(rng, tier):
     return arrays
 
 
+def pad_to(st, n):
+    """the same well-formed text made at least n characters long by trailing blanks on its last line"""
+    addr_mode, lines, fnl = st
+    short = n - len(render(st))
+    if short <= 0:
+        return st
+    if not lines:
+        lines = [(b'0' if addr_mode else b'', [], b'')]
+    a, items, t = lines[-1]
+    return (addr_mode, lines[:-1] + [(a, items, t + b' ' * short)], fnl)
+
+
+def gen_syntax_mode(rng, addr_mode, nonempty=False):
+    for _ in range(50):
+        st = gen_syntax(rng)
+        if st[0] == addr_mode and (not nonempty or expected(st)):
+            return st
+    return (addr_mode, [(b'0010' if addr_mode else b'', [(b' ', False, ord('0'), ord('1'))], b'')], True)
+
+
+def gen_block_histories(rng, n, first_id):
+    """histories of 2-4 texts parsed one after the other in the SAME persistent block (a refilled line buffer / a recycled
+    chunk): colon-free text(s) then addressed text(s) of equal or shorter length, the reverse, and free mixtures with
+    random strings and dumps.  The model has no state, so each text's expected result is what it is on its own."""
+    out = []
+    for h in range(n):
+        hid = first_id + h
+        shape = rng.below(5)
+        k = rng.range(2, 4)
+        seq = []
+        if shape <= 1:                                   # colon-free ... then addressed, equal or shorter
+            na = rng.range(1, k - 1)
+            addressed = [gen_syntax_mode(rng, True, nonempty=True) for _ in range(na)]
+            longest = max(len(render(a)) for a in addressed)
+            plain = [pad_to(gen_syntax_mode(rng, False), longest + rng.choice([0, 0, 1, 5])) for _ in range(k - na)]
+            seq = [('syn', st) for st in plain + addressed]
+        elif shape == 2:                                 # addressed ... then colon-free
+            na = rng.range(1, k - 1)
+            seq = [('syn', gen_syntax_mode(rng, True)) for _ in range(na)] + [('syn', gen_syntax_mode(rng, False, nonempty=True)) for _ in range(k - na)]
+        else:                                            # anything after anything
+            for _ in range(k):
+                r = rng.below(6)
+                if r <= 2:
+                    seq.append(('syn', gen_syntax(rng)))
+                elif r == 3:
+                    seq.append(('str', gen_string(rng)))
+                elif r == 4:
+                    seq.append(('str', mutate(rng, render(gen_syntax(rng)))))
+                else:
+                    seq.append(('dump', bytes(rng.below(256) for _ in range(rng.choice([0, 1, 15, 16, 17, 33, rng.range(0, 70)])))))
+        style = 'reparse' if rng.chance(1, 5) else 'parse'
+        for kind, x in seq:
+            if kind == 'syn':
+                # hextest.c style is in the accepted syntax only for colon-free texts
+                out.append(syntax_op(x, style if not x[0] else 'parse', blk=True, hist=hid, cls='block-history'))
+            elif kind == 'str':
+                out.append(Op(style, x, cls='block-history', blk=True, hist=hid))
+            else:
+                out.append(Op('dump', x, cls='block-history', blk=True, hist=hid))
+    return out
+
+
 def exhaustive(alphabet, maxlen):
     out, layer = [b''], [b'']
     for _ in range(maxlen):
@@ -310,19 +379,27 @@ def shrink_syntax(st, fails):
     return (addr_mode, lines, fnl)
 
 
-def shrink(ctx, exe, op, against_model):
-    """smallest input of the same kind on which the same kind of failure persists"""
-    def bad(o):
-        io = run_impl(exe, [o], 60)[0]
-        if against_model:
-            return o.spec(io) is None and io != run_model(ctx, [o], 60)[0]
-        return o.spec(io) is not None
+def is_bad(ctx, exe, seq, against_model):
+    """run the op sequence in ONE fresh harness process; is the LAST op (still) a failure of the same kind?"""
+    io = run_impl(exe, seq, 60)[-1]
+    o = seq[-1]
+    if io and io[-1].startswith('!! missing'):
+        return False                                     # an earlier op died: not the failure being minimised
+    if against_model:
+        return o.spec(io) is None and io != run_model(ctx, [o], 60)[0]
+    return o.spec(io) is not None
+
+
+def shrink(ctx, exe, op, against_model, pre=()):
+    """smallest input of the same kind on which the same kind of failure persists (after the ops `pre`)"""
+    pre = list(pre)
+    bad = lambda o: is_bad(ctx, exe, pre + [o], against_model)
     if op.kind == 'tables':
         return op
     if op.struct is not None and not against_model:
-        st = shrink_syntax(op.struct, lambda s: bad(syntax_op(s, op.kind)))
-        return syntax_op(st, op.kind)
-    mk = (lambda d: Op(op.kind, bytes(d), None, None, op.cls))
+        st = shrink_syntax(op.struct, lambda s: bad(op.clone(render(s), expected(s), s)))
+        return op.clone(render(st), expected(st), st)
+    mk = (lambda d: op.clone(bytes(d)))
     data = list(op.data)
     if len(data) > 1:
         data = vlib.ddmin(data, lambda d: bad(mk(d)), 300)
@@ -335,6 +412,31 @@ def shrink(ctx, exe, op, against_model):
     return o if bad(o) else op
 
 
+def shrink_history(ctx, exe, ops, i, against_model):
+    """ops[i] failed in a batch.  Returns the shortest op sequence found (to be run in one fresh process) whose last op
+    fails in the same way: the op alone when it does not depend on what ran before; otherwise the needed earlier ops
+    (state leaking between calls, e.g. through the re-used block) with their texts shrunk as well."""
+    op = ops[i]
+    if is_bad(ctx, exe, [op], against_model):
+        return [shrink(ctx, exe, op, against_model)]
+    same = [o for o in ops[:i] if op.hist is not None and o.hist == op.hist]
+    pre = same if same and is_bad(ctx, exe, same + [op], against_model) else list(ops[:i])
+    if not is_bad(ctx, exe, pre + [op], against_model):
+        return list(ops[:i + 1])[-50:]                   # not reproducible in a fresh process: report the tail as it ran
+    if len(pre) > 1:
+        pre = vlib.ddmin(pre, lambda c: is_bad(ctx, exe, c + [op], against_model), 200)
+    small = shrink(ctx, exe, op, against_model, pre)
+    for k in range(len(pre)):                            # shrink the texts of the earlier ops too
+        o = pre[k]
+        if o.kind == 'tables' or len(o.data) < 2:
+            continue
+        data = vlib.ddmin(list(o.data), lambda d: is_bad(ctx, exe, pre[:k] + [o.clone(bytes(d))] + pre[k + 1:] + [small], against_model), 120)
+        cand = o.clone(bytes(data))
+        if is_bad(ctx, exe, pre[:k] + [cand] + pre[k + 1:] + [small], against_model):
+            pre[k] = cand
+    return pre + [small]
+
+
 def examine(ctx, exe, ops, label, stats):
     """run ops through implementation and model; report the first op that contradicts the property (violation,
     shrunk) or on which model and implementation differ (broken correspondence).  Returns #ops that agreed."""
@@ -343,7 +445,7 @@ def examine(ctx, exe, ops, label, stats):
     impl = run_impl(exe, ops)
     model = run_model(ctx, ops)
     agreed = 0
-    for op, io, mo in zip(ops, impl, model):
+    for i, (op, io, mo) in enumerate(zip(ops, impl, model)):
         why = op.spec(io)
         if why is None and io == mo:
             agreed += 1
@@ -354,21 +456,27 @@ def examine(ctx, exe, ops, label, stats):
             if why is None and io == mo:
                 agreed += 1; continue
         if why is not None:
-            small = shrink(ctx, exe, op, against_model=False)
-            sio = run_impl(exe, [small], 60)[0]
+            seq = shrink_history(ctx, exe, ops, i, against_model=False)
+            outs = run_impl(exe, seq, 60)
+            small, sio = seq[-1], outs[-1]
             smo = run_model(ctx, [small], 60)[0]
-            ctx.violation({'obligation': f'{label}: implementation vs the property ({op.kind}, class {op.cls or op.kind})',
-                           'ops': [small.line()], 'meta': [{'kind': small.kind, 'expect': small.expect, 'text': small.data.decode('latin-1')}],
+            ctx.violation({'obligation': f'{label}: implementation vs the property ({op.kind}, class {op.cls or op.kind}'
+                                         + (', texts parsed one after the other in the same block' if len(seq) > 1 else '') + ')',
+                           'ops': [o.line() for o in seq],
+                           'meta': [{'kind': o.kind, 'block': o.blk, 'expect': o.expect, 'text': o.data.decode('latin-1')} for o in seq],
                            'why': small.spec(sio), 'observed': sio, 'model': smo,
                            'expected': ([f'dump ret={len(small.data)} {enc(fmt_dump(small.data))}', 'parse ' + ' '.join(map(str, list(small.data) + [-1, -1, -1]))] if small.kind == 'dump'
                                         else (['parse ' + ' '.join(map(str, list(small.expect) + [-1, -1, -1]))] if small.expect is not None
                                               else 'values in 0..255, -1 within len/2+1 calls and sticky, no access beyond the NUL')),
+                           'note': ('the last op fails only after the earlier ops of this replay ran in the same process: state leaks between calls'
+                                    if len(seq) > 1 else 'the op fails on its own'),
                            'original_input': op.line()[:400], 'how_to_rerun': f'./check {ctx.pid} --replay <this file>'},
-                          key='ops:' + hashlib.sha1(small.line().encode()).hexdigest()[:16])
+                          key='ops:' + hashlib.sha1('\n'.join(o.line() for o in seq).encode()).hexdigest()[:16])
             return agreed
-        small = shrink(ctx, exe, op, against_model=True)
-        sio = run_impl(exe, [small], 60)[0]; smo = run_model(ctx, [small], 60)[0]
-        ctx.broken.append(f'correspondence hex ({label}): the model differs from the implementation on `{small.line()}` '
+        seq = shrink_history(ctx, exe, ops, i, against_model=True)
+        small = seq[-1]
+        sio = run_impl(exe, seq, 60)[-1]; smo = run_model(ctx, [small], 60)[0]
+        ctx.broken.append(f'correspondence hex ({label}): the model differs from the implementation on `{" ; ".join(o.line() for o in seq)[:400]}` '
                           f'(text {small.data[:80]!r}): model={str(smo)[:300]} impl={str(sio)[:300]}; the property\'s own clauses hold on this input')
         return agreed
     return agreed
@@ -381,11 +489,12 @@ def deep_search(ctx, exe, rng, stats):
         ops += [syntax_op(gen_syntax(rng), rng.choice(['parse', 'parse', 'reparse'])) for _ in range(1500)]
         ops = [o for o in ops if not (o.kind == 'reparse' and o.struct and o.struct[0])]
         ops += [Op(rng.choice(['parse', 'reparse']), gen_string(rng), cls='random') for _ in range(4000)]
+        ops += gen_block_histories(rng, 2000, 10 ** 6 * (rnd + 1))
         impl = run_impl(exe, ops)
-        for op, io in zip(ops, impl):
+        for i, (op, io) in enumerate(zip(ops, impl)):
             ctx.count(op.line())
             if op.spec(io) is not None:
-                examine(ctx, exe, [op], 'deep search', stats)
+                examine(ctx, exe, ops[:i + 1][-400:], 'deep search', stats)
                 return True
     return False
 
@@ -427,6 +536,7 @@ def build_ops(ctx, rng):
     rnd = [gen_string(rng) for _ in range(4000 if quick else 300000)]
     rnd += [mutate(rng, render(s)) for s in syn[:(600 if quick else 30000)]]
     rnd += [mutate(rng, fmt_dump(a)) for a in gen_dump_arrays(rng, 'quick')[:40]]
+    groups['block-history'] = gen_block_histories(rng, 500 if quick else 20000, 1)
     groups['tables'] = [Op('tables')]          # after the property-level classes: their witnesses are in the property's own terms
     groups['random'] = [Op('parse', t, cls='random') for t in rnd]
     groups['random-reparse'] = [Op('reparse', t, cls='random') for t in rnd[::3]]
@@ -452,9 +562,10 @@ def run(ctx):
     for fn in sorted(os.listdir(cdir)) if os.path.isdir(cdir) and not os.environ.get('VERIF_NO_CORPUS') else []:   # the switch is for mutation runs that measure the generators alone
         for ln in open(os.path.join(cdir, fn)):
             w = ln.split('#')[0].split()
-            if len(w) >= 2 and w[0] in ('dump', 'parse', 'reparse'):
+            if len(w) >= 2 and w[0] in ('dump', 'parse', 'reparse', 'bdump', 'bparse', 'breparse'):
                 exp = [int(x) for x in w[2][7:].split(',') if x] if len(w) > 2 and w[2].startswith('expect=') else None
-                corpus.append(Op(w[0], b'' if w[1] == '-' else bytes.fromhex(w[1]), exp, cls='corpus'))
+                blk = w[0][0] == 'b'
+                corpus.append(Op(w[0][1:] if blk else w[0], b'' if w[1] == '-' else bytes.fromhex(w[1]), exp, cls='corpus', blk=blk, hist=-1 if blk else None))
     groups, (alpha, depth) = build_ops(ctx, rng)
     order = [('corpus', corpus)] + list(groups.items())
     agreed, hist = 0, {}
@@ -479,16 +590,18 @@ def run(ctx):
     ctx.cov['dump_lengths'] = sorted(set(len(o.data) for o in groups['dump']))[:80]
     ctx.cov['exhaustive'] = True
     ctx.cov['exhaustive_scope'] = f'every string over {alpha.decode()!r} up to length {depth} ({len(groups["exhaustive"])} strings), both calling styles'
-    for name in ('dump', 'syntax', 'random', 'exhaustive'):
+    for name in ('dump', 'syntax', 'block-history', 'random', 'exhaustive'):
         ops = groups[name]
         if ops:
             o = ops[min(len(ops) - 1, 7 + ctx.seed)]
-            ctx.sample({'class': name, 'op': o.kind, 'input': o.data[:80].decode('latin-1'), 'length': len(o.data),
+            ctx.sample({'class': name, 'op': o.line().split()[0], 'input': o.data[:80].decode('latin-1'), 'length': len(o.data),
                         'expected_bytes': (o.expect[:16] if o.expect is not None else None)})
     ctx.cov['rule'] = ('ops: tables (libc isspace/isxdigit, nibble, hexchar for all 256 chars); dump of byte arrays of lengths 0..N around every multiple of 16, all byte values, '
                        'text compared with the 16-pairs-per-line format and parsed back on an exactly-sized heap copy; texts rendered from the accepted syntax '
                        '(optional 0x, either case, blanks, address: on every line or no colon) with the expected bytes; random strings over hex digits, x, :, blanks, newlines, arbitrary bytes '
-                       'and near misses of well-formed texts; every string over a 7-8 letter alphabet up to a bounded length; each parsed in both calling styles. '
+                       'and near misses of well-formed texts; every string over a 7-8 letter alphabet up to a bounded length; each parsed in both calling styles, each in a fresh exactly-sized heap block; '
+                       'block histories: 2-4 texts (colon-free then addressed of equal or shorter length, the reverse, mixtures with random strings and dumps) copied right-aligned one after the other into ONE persistent '
+                       '4096-byte block (NUL = last byte, so an over-read is still seen) - hidden state leaking between calls shows as a difference from the stateless model. '
                        'distinct = distinct op line; non-trivial = non-empty dump, or text holding a hex pair, a newline or a colon')
     ctx.assumptions.append(META['level_note'])
 
@@ -508,8 +621,9 @@ def replay(ctx, path):
         if w[0] == 'tables':
             ops.append(Op('tables'))
         else:
-            ops.append(Op(w[0], b'' if w[1] == '-' else bytes.fromhex(w[1]), m.get('expect')))
-    impl = run_impl(exe, ops, 60); model = run_model(ctx, ops, 60)
+            blk = w[0] in ('bdump', 'bparse', 'breparse')
+            ops.append(Op(w[0][1:] if blk else w[0], b'' if w[1] == '-' else bytes.fromhex(w[1]), m.get('expect'), blk=blk))
+    impl = run_impl(exe, ops, 60); model = run_model(ctx, ops, 60)       # all ops in one harness process, in order
     rc = 0
     for op, io, mo in zip(ops, impl, model):
         why = op.spec(io)
